@@ -52,6 +52,8 @@ RULE = ('two generators. (t4) synthetic Tripoli-4 listing: 1-4 editions (increas
         'listings / HDF5 files are enumerated. non-trivial: t4 = >=2 editions or a decreasing group '
         'order or a negative / zero / not-converged result; ap3 = >=2 zones and an isotope with an '
         'anisotropic result; distinct = structural hash of the case')
+RULE_ADDENDA = (' Also: volumes of frontiers / volume sums listed in either order; the KEFFS blocks of the shipped listings read independently (vlib/t4keff.py); all cases of a process share one scratch path.')
+RULE = RULE + RULE_ADDENDA
 ASSUMPTIONS = [
     'the emitter copies prologue / batch blocks / epilogue verbatim from shipped listings and only '
     'recombines response, zone, spectrum, time-step and integrated-result layouts that occur in them '
